@@ -81,13 +81,24 @@ def generic_run_case(families, task):
     case.known = set(task.get('known_keys', ()))
     fam.install(case)
     t0 = time.time()
-    r = engine.analyze(fam.harness, task.get('budget', 60.0),
-                       task.get('path_timeout', 20.0))
+    if task.get('twin'):
+        # on the cases that also run the reachability twin, a profile hook
+        # records which /repo functions the symbolic run enters (all paths)
+        r, fns = profile_functions(engine.analyze, fam.harness, task.get('budget', 60.0),
+                                   task.get('path_timeout', 20.0))
+        if isinstance(r, Exception):
+            raise r
+        r['functions'] = fns
+    else:
+        r = engine.analyze(fam.harness, task.get('budget', 60.0),
+                           task.get('path_timeout', 20.0))
     r['known_hits'] = sorted(case.known_hits)
     if task.get('twin') and r['verdict'] in ('CONFIRMED', 'INCOMPLETE'):
         case2 = fam.make(task['params'])
         case2.known = set(task.get('known_keys', ()))
         fam.install(case2)
+        # the reachability twin also serves to record which /repo functions the
+        # harness really enters (profile hook active during its symbolic run)
         rt = engine.analyze(fam.twin, 30.0, 15.0)
         r['twin'] = rt['verdict']
         r['twin_paths'] = rt['paths']
